@@ -26,6 +26,7 @@ PROP_MODULES = {
     "C12": ["contracts.c12"],
     "C09": ["contracts.c09"],
     "C10": ["contracts.c10"],
+    "C07": ["contracts.c07"],
 }
 
 
